@@ -3,12 +3,18 @@
 // Contracts for govc (contract-based deductive verification); comment-only, compiled only with -tags verif.
 package types
 
-// IsOpen reads the package-level slice NonSettledStatuses = {Pending, Candidate, Proven} through the generic
-// slices.Contains; assumed: that variable is never reassigned (no store to it exists in the module).
-//@ func (c CertificateStatus) IsOpen (c)
-//@   trusted
+// IsOpen reads the package-level slice NonSettledStatuses = {Pending, Candidate, Proven} (its declaration is pinned
+// below) through the generic slices.Contains; assumed at that call: the variable is never reassigned (no store to it
+// exists in the module) and Contains is membership. The body is proved against that: the list it tests, the value it
+// looks for, and that the answer is handed on unchanged.
+//@ extern slices.Contains@types.(CertificateStatus).IsOpen (s, v)
 //@   modifies nothing
-//@   ensures result == (c == Pending || c == Candidate || c == Proven)
+//@   ensures result == (v == Pending || v == Candidate || v == Proven)
+//@ func (c CertificateStatus) IsOpen (c)
+//@   props C02 C13
+//@   modifies nothing
+//@   ensures[open-means-undecided] result == (c == Pending || c == Candidate || c == Proven)
+//@   assert call:Contains arg0 == NonSettledStatuses && arg1 == c
 
 // emptyBytesHash = crypto.Keccak256(nil), set once at package initialisation
 //@ constglobal emptyBytesHash len 32 content hb(keccak(emptyB()))
